@@ -1,14 +1,17 @@
 """C05 side effects happen once each, in Python's evaluation order -- structural clauses.
 
-R-C05.1  "each operand at most once, in order": the desugarings of the CFG builder are
-         interpreted on *symbolic operands* (own interpreter; constructors and the
-         block/branch primitives are hooks that record events).  For chained comparisons
-         (3 and 4 operands), and/or (2..4 operands), conditional expressions and `not`, every
-         source operand must be built exactly once along the all-true path and the build
-         events must come in source order; short-circuit operands must be built in a block
-         that is entered only through the earlier test.
+R-C05.1  "each operand once, in order, short-circuit operands behind their test": the desugarings
+         of the CFG builder are interpreted on *symbolic operands* (own interpreter; constructors
+         and the block/branch primitives are hooks that record events: operand built in block B,
+         block B branches on predicate P, link B -> B').  The recorded block graph is then *run*
+         for every truth assignment of the branch predicates and the sequence of operands it
+         evaluates, and the exit it reaches, are compared with Python's semantics of the source
+         expression: chained comparisons (3 and 4 operands), and/or (2..4 operands), conditional
+         expressions in branch position and in value position (incl. which value the result
+         temporary holds), `not`.  The order in which the builder happens to construct mutually
+         exclusive blocks is irrelevant.
          Desugarings in the checker that duplicate an operand (AugAssign on a subscript) are
-         decided the same way.
+         decided by counting the evaluation uses of the duplicated node.
 R-C05.2  ordering mechanism in place: the side-effect list names results, panic, exit,
          state-result, qubit alloc/free/measure-free; calls count as side effects; every
          compile_inner runs inside track_hugr_side_effects; the tracker links each new
